@@ -1,7 +1,7 @@
 #!/usr/bin/env python3
 """Shape probe: descriptors of design shapes that are (or were) absent from the corpus are pushed through the generic
 checks (Engine A soundness/completeness/uniqueness/trial count, the RandomGen enumeration queries, C08 synthesis, C15
-derived columns).  Used to look for library defects and reference false alarms before a shape is added to
+derived columns, C17 mismatch verdicts on solver-generated sequences, C20 returned columns and conversions).  Used to look for library defects and reference false alarms before a shape is added to
 vf/corpus.py; run with `.venv/bin/python tools/probe_shapes.py` (PYTHONPATH=<worktree> to probe a patched tree).
 Evidence is not written; violations are printed."""
 import sys, os
@@ -13,7 +13,7 @@ from vf.designs import describe
 from vf.common import Ctx, pmap
 from vf.designcheck import check_design
 from vf.randcheck import check_random
-from vf.props import c15, c08
+from vf.props import c15, c08, c17, c20
 ONE = {'name': 'O', 'levels': ['o0']}
 TRG = transition('Q', 'G')
 QR = transition('Q', 'R')
@@ -94,7 +94,8 @@ ds = [
 def one(sub, d):
     return {'design': check_design(sub, (d, ['sound', 'complete', 'unique', 'trials'])),
             'random': check_random(sub, (d, ['valid', 'uniform', 'exhaust', 'agree'], 5000)),
-            'c08': c08.synth(sub, d), 'c15': c15.derived_columns(sub, d)}
+            'c08': c08.synth(sub, d), 'c15': c15.derived_columns(sub, d), 'c17': c17.check(sub, d),
+            'c20': c20.hidden_keys(sub, d)}
 
 
 if __name__ == '__main__':
